@@ -46,3 +46,8 @@ Proof. reflexivity. Qed.
 Lemma gen_project_system_is_model : forall R (o : ring_ops R) M f I,
   gen_project_system o M f I = condense_call o M (Some f) None (Some I) None.
 Proof. reflexivity. Qed.
+
+(* the subset ARGUMENT of project (elements= / facets=) is the restricted assembly that C06_projection_on_subset describes
+   (fails on a tree where the system assembled over the whole basis is merely condensed to the subset's DOFs) *)
+Lemma gen_subset_argument_is_restricted_assembly : gen_subset_argument_restricts = true.
+Proof. reflexivity. Qed.
